@@ -1,8 +1,108 @@
 import GceTcb.Base.Line
-/- Driver handler for stream `c05` (stub: replaced when the property's model lands). -/
+import GceTcb.Base.Sha384
+import GceTcb.Model.Mrtd
+import GceTcb.Spec.Mrtd
+import GceTcb.Gen.TdxConsts
+/- Driver handler for stream `c05`: model of tdx.MRTD / ovmf.ExtractMaterialGuestPhysicalRegions* /
+   ovmf.unacceptedMemRanges / regionsForShape / tdx.UnsignedTDX, and the independent specification. -/
 namespace GceTcb.Drive.C05
-open GceTcb
+open GceTcb GceTcb.Intervals GceTcb.TdxMeta GceTcb.TdxHob GceTcb.Mrtd
 
-def handle (_f : Fields) : String := "unimplemented"
+/-- "s:l;s:l" -/
+def parseGprs (v : String) : List Gpr :=
+  if v == "" || v == "-" then []
+  else (v.splitOn ";").filterMap fun t =>
+    match t.splitOn ":" with
+    | [a, b] => some ⟨a.toNat?.getD 0, b.toNat?.getD 0⟩
+    | _ => none
+
+def showGprs (l : List Gpr) : String :=
+  if l.isEmpty then "-" else ";".intercalate (l.map fun g => s!"{g.start}:{g.len}")
+
+def fnv1a (b : Bytes) : Nat :=
+  (b.foldl (fun (h : UInt64) (x : UInt8) => (h ^^^ x.toUInt64) * 1099511628211) 14695981039346656037).toNat
+
+def trimZeros (b : Bytes) : Bytes := (b.reverse.dropWhile (· == 0)).reverse
+
+/-- preconditions of C05_unaccepted_correct, decided on concrete lists -/
+def noOverflow (l : List Gpr) : Bool := l.all fun g => g.start + g.len < 2 ^ 64
+def disjointB : List Gpr → Bool
+  | [] => true
+  | a :: t => t.all (fun b => a.len == 0 || b.len == 0 || a.start + a.len ≤ b.start || b.start + b.len ≤ a.start) && disjointB t
+def precond (ps rs : List Gpr) : Bool := noOverflow ps && noOverflow rs && disjointB ps && disjointB rs
+
+def specDifference (rs ps : List Gpr) : List Gpr :=
+  (Spec.Intervals.difference (rs.map fun g => ⟨g.start, g.start + g.len⟩) (ps.map fun g => ⟨g.start, g.start + g.len⟩)).map
+    fun i => ⟨i.lo, i.hi - i.lo⟩
+
+def sha (b : Bytes) : Bytes := Sha384.sha384List b
+
+def specMode (du ma : Bool) : Spec.Mrtd.Mode :=
+  if du then .measureAllEarly else if ma then .measureAll else .default
+
+def toMeta (s : Codecs.TdxSection) : Spec.Mrtd.MetaSection :=
+  ⟨s.dataOffset, s.dataSize, s.memoryBase, s.memorySize, s.sectionType, s.attributes⟩
+
+def showRegion (r : Region) : String :=
+  s!"{r.gpr.start}:{r.gpr.len}:{r.attrs}:{r.buf.length}:{fnv1a r.buf.toBytes}"
+
+def showMeas (m : Measurement) : String := s!"{m.ramGib}:{if m.earlyAccept then 1 else 0}:{hexEncode m.mrtd}"
+
+def handle (f : Fields) : String :=
+  match f.get "op" with
+  | "unacc" =>
+    let ps := parseGprs (f.get "priv")
+    let rs := parseGprs (f.get "ram")
+    let out := unacceptedMemRanges ps rs
+    "out=" ++ showGprs out ++ " spec=" ++ (if precond ps rs then showGprs (specDifference rs ps) else "na")
+  | "mrtd" =>
+    let fw := f.bytes "img"
+    let banks := parseGprs (f.get "banks")
+    let du := f.bool "du"
+    let ma := f.bool "ma"
+    let o : LaunchOptions := { banks := banks, disableUnacceptedMemory := du, measureAllRegions := ma }
+    match mrtd sha o fw with
+    | .ok d =>
+      let spec :=
+        match extractTDXMetadata fw with
+        | .ok md =>
+          let useBanks := if du || ma then banks else []
+          if noOverflow useBanks && disjointB useBanks then
+            match Spec.Mrtd.mrtdOf sha (specMode du ma) fw (useBanks.map fun g => (g.start, g.len)) (md.sections.map toMeta) with
+            | some s => hexEncode s
+            | none => "nofit"
+          else "na"
+        | _ => "nometa"
+      "ok " ++ hexEncode d ++ " spec=" ++ spec
+    | .err c => "reject=" ++ c
+    | .panic s => "panic=" ++ s
+  | "regions" =>
+    let fw := f.bytes "img"
+    let banks := parseGprs (f.get "banks")
+    let r :=
+      match f.nat "mode" with
+      | 0 => extractDefault fw
+      | 1 => extractTDHOBBug fw banks
+      | _ => extractNoUnacceptedMemory fw banks
+    match r with
+    | .ok regions =>
+      let hob := match regions.find? (fun r => r.buf.data.length ≥ 56 ∧ r.buf.data.take 4 == [1, 0, 56, 0]) with
+        | some r => hexEncode (trimZeros r.buf.toBytes)
+        | none => "-"
+      "ok n=" ++ toString regions.length ++ " r=" ++ ";".intercalate (regions.map showRegion) ++ " hob=" ++ hob
+    | .err c => "reject=" ++ c
+    | .panic s => "panic=" ++ s
+  | "shape" =>
+    match machineTypeToRAMBanks Gen.TdxConsts.shapes (f.get "name") with
+    | .ok b => "ok " ++ showGprs b
+    | .err c => "reject=" ++ c
+    | .panic s => "panic=" ++ s
+  | "unsigned" =>
+    let fw := f.bytes "img"
+    match unsignedTDX sha Gen.TdxConsts.shapes fw (f.bool "early") (f.list "shapes") with
+    | .ok ms => "ok " ++ ";".intercalate (ms.map showMeas)
+    | .err c => "reject=" ++ c
+    | .panic s => "panic=" ++ s
+  | _ => "bad-op"
 
 end GceTcb.Drive.C05
